@@ -134,3 +134,9 @@ def with_oracle(zkh, lines_and_msgs):
             k += 1
             out.append(f"{line} {int(d)} {int(s)}")
     return out
+
+
+def round1_constants(zkh, t):
+    """first-round constants c[0..t] of the width-t Poseidon permutation, read from the implementation"""
+    out = core.run_impl(zkh, [f"poseidon_c {hex(t)}"])[0]
+    return [int(x, 16) for x in out.split(" ")]
